@@ -276,3 +276,36 @@ package main
 //@     assigns mapof(asHeader(rwHeader[w]))
 //@     invariant[C19:fwd-state] response != nil && rwHeader[w] != nil && response.Header != asHeader(rwHeader[w]) && commits == 0
 //@     invariant[C19:fwd-copied] forall_str(k, visited[k] ==> in(k, asHeader(rwHeader[w])) && asHeader(rwHeader[w])[k] == response.Header[k])
+
+// ---- the entry point (C17, C19): one request, one handler class, decided by the App Engine module alone ----
+//@ func init#1$1 props(C17,C19,C07)
+//@   at ctx := appengine.NewContext(r)
+//@   requires w != nil && r != nil && r.URL != nil && r.Body != nil && s != nil && rwWrites[w] == 0 && rwHeader[w] != nil && allocated0(rwHeader[w])
+//@   ghost routed int = 0
+//@   ghost rid string = ""
+//@   ghost agentMod bool = false
+//@   ghost apiMod bool = false
+//@   call isAgentRequest
+//@     do agentMod = ret0
+//@   call isAPIRequest
+//@     assert[C17:api-test-only-for-non-agent-requests] !agentMod
+//@     do apiMod = ret0
+//@   call v2.RequestID
+//@     do rid = ret0
+//@   call handleAgentRequest
+//@     assert[C17:agent-module-gets-the-agent-endpoints] routed == 0 && agentMod && arg1 == s && arg2 == w && arg3 == r
+//@     do routed = routed + 1
+//@   call handleAPIRequest
+//@     assert[C17:api-module-gets-the-admin-api] routed == 0 && !agentMod && apiMod && arg1 == s && arg2 == w && arg3 == r
+//@     do routed = routed + 1
+//@   call proxyHandler
+//@     assert[C17:everything-else-is-an-end-user-request] routed == 0 && !agentMod && !apiMod && arg1 == s && arg3 == w && arg4 == r
+//@     assert[C19:end-user-requests-get-the-platforms-request-id] arg2 == rid
+//@     do routed = routed + 1
+//@   ensures[C17:every-request-is-routed-once] routed == 1
+//@ func isAgentRequest props(C17,C07)
+//@   assigns nothing
+//@   ensures[C17:agent-requests-are-those-of-the-agent-module] r0 <==> moduleOf(ctx) == "agent"
+//@ func isAPIRequest props(C17,C07)
+//@   assigns nothing
+//@   ensures[C17:api-requests-are-those-of-the-api-module] r0 <==> moduleOf(ctx) == "api"
